@@ -114,6 +114,7 @@ func (Sequential) Run(c choice.Chooser, opt sim.Options) (res sim.Result) {
 		return nil
 	}
 	branching, rereads := 0, 0
+	cellSeen := map[string]bool{}
 	nOps := 4 + c.Intn("ops", 36)
 	for k := 0; k < nOps; k++ {
 		res.Steps++
@@ -122,6 +123,15 @@ func (Sequential) Run(c choice.Chooser, opt sim.Options) (res sim.Result) {
 		o := genOp(c, recv.mesh, meshes(pool), unsupported, counts)
 		derived, note := o.Run(recv.mesh)
 		res.Count("op:"+family(o.Name), 1)
+		// which operations actually took effect (not rejected on a
+		// precondition) at least once: reported as coverage cells
+		if !strings.HasPrefix(note, "panic") && !strings.HasPrefix(note, "error") && note != "uncovered" {
+			cell := "ok:" + o.Name
+			if !cellSeen[cell] {
+				cellSeen[cell] = true
+				res.Cells = append(res.Cells, cell)
+			}
+		}
 		if strings.Contains(note, "disk failed") {
 			res.Count("fault:disk-write-failed", 1)
 		}
